@@ -38,6 +38,10 @@ def run(ctx, obs):
     distinct_fold_indices(ctx, obs, CN)
     operand_symmetry(ctx, obs, CN)
     centring_axis(ctx, obs)
+    # default folds: "the first occurrence of each value forms the first group, the second the second ..." - an argsort-based
+    # grouping keeps the occurrences of a value in order only if it is stable
+    from ..rules.containers import stable_sorts
+    stable_sorts(ctx, obs, 'rdm.calc._gen_default_cv_descriptor')
     scale_rule.check_return(ctx, obs, SINGLE, {'chan': -1})
     scale_rule.check_value_at_build(ctx, obs, CN, {'chan': -1})
     scale_rule.check_value_at_build(ctx, obs, PCV, {'chan': -1})
